@@ -396,3 +396,15 @@ VARIANTS += [
       find='\t\t\t\tif err := isRootCACertificate(cert); err != nil {\n\t\t\t\t\treturn nil, CertificateError{InnerError: err, Msg: fmt.Sprintf("trusted certificate %s in trust store %s of type %s is invalid: %v", certFileName, namedStore, storeType, err.Error())}\n\t\t\t\t}\n',
       replace='\t\t\t\tif err := isRootCACertificate(cert); err != nil {\n\t\t\t\t\treturn nil, CertificateError{InnerError: err, Msg: fmt.Sprintf("trusted certificate %s in trust store %s of type %s is invalid: %v", certFileName, namedStore, storeType, err.Error())}\n\t\t\t\t}\n\t\t\t\tbreak\n'),
 ]
+
+# ---- membership test of the store type written out as a loop (benign batch 6, C13-2) ----
+_TS = 'verifier/truststore/truststore.go'
+_CONTAINS = '\treturn slices.Contains(Types, storeType)\n'
+def _loop(cond='storeType == supported', tail='false'):
+    return '\tfor _, supported := range Types {\n\t\tif ' + cond + ' {\n\t\t\treturn true\n\t\t}\n\t}\n\treturn ' + tail + '\n'
+_KEEP = [(_TS, 'func isRootCACertificate(', 'var _ = slices.Contains[Type]\n\nfunc isRootCACertificate(')]
+VARIANTS += [
+ dict(name='benign-known-type-loop', file=_TS, expect='silent', find=_CONTAINS, replace=_loop(), edits=_KEEP, why='slices.Contains written out'),
+ dict(name='known-type-loop-inverted', file=_TS, expect='flagged(gate/known-type)', find=_CONTAINS, replace=_loop(cond='storeType != supported'), edits=_KEEP, why='true for every type that differs from some supported one'),
+ dict(name='known-type-loop-default-true', file=_TS, expect='flagged(gate/known-type)', find=_CONTAINS, replace=_loop(tail='true'), edits=_KEEP, why='falls through to true'),
+]
